@@ -26,6 +26,7 @@ struct Config {
     uint64_t max_decisions = 50000;
     uint64_t max_virtual_ns = 0; // 0 = unlimited; exceeding it is reported as a hang (kind 3)
     unsigned spin_limit = 64; // consecutive decisions of one thread while others are runnable
+    unsigned alone_spin_limit = 200; // decisions a lone runnable thread may take before the earliest timeout of the others expires
     bool atomics_are_points = true;
 };
 
